@@ -59,6 +59,10 @@ enum Follow {
     /// the entry is read (open + read, or listed) BEFORE the setters: whatever the backend noted
     /// for that access must not outlive an explicit setter
     ReadBeforeSetters,
+    /// an append handle is opened and WRITTEN to before the setters and dropped after them with
+    /// no further write: on backends whose handles write through (physical ones) the drop must
+    /// not change any timestamp or the length again
+    AppendWrittenBeforeSetters,
 }
 
 struct Case {
@@ -248,6 +252,7 @@ pub fn run_c19(ctx: &Ctx) -> i32 {
                         Follow::Read,
                         Follow::AppendHandleOpenAcrossSetters,
                         Follow::ReadBeforeSetters,
+                        Follow::AppendWrittenBeforeSetters,
                     ] {
                         if (is_dir || is_link) && !matches!(follow, Follow::Nothing | Follow::ReadBeforeSetters) {
                             continue;
@@ -295,6 +300,15 @@ pub fn run_c19(ctx: &Ctx) -> i32 {
                         }
                         let mut open_handle = if follow == Follow::AppendHandleOpenAcrossSetters {
                             p.append_file().ok()
+                        } else {
+                            None
+                        };
+                        let mut written_handle = if follow == Follow::AppendWrittenBeforeSetters {
+                            use std::io::Write;
+                            p.append_file().ok().map(|mut h| {
+                                let _ = h.write_all(b"w");
+                                h
+                            })
                         } else {
                             None
                         };
@@ -408,6 +422,19 @@ pub fn run_c19(ctx: &Ctx) -> i32 {
                                 }
                             }
                         }
+                        if let Some(h) = written_handle.take() {
+                            let before_drop = PathApi::metadata(&p);
+                            drop(h);
+                            // (memory based handles publish on drop, which is a modification; handles
+                            // of the physical backend have written through long ago)
+                            if case.cfg.has_phys() && !case.mem_based {
+                                if let (Ok(bm), Ok(am)) = (before_drop, PathApi::metadata(&p)) {
+                                    if am.modified != bm.modified || am.created != bm.created || am.len != bm.len {
+                                        vio.push(mk("drop-of-a-written-append-handle-changed-the-entry".into(), format!("the handle had been written before the setters; dropping it changed modified/created/len: {:?} -> {:?}", bm, am)));
+                                    }
+                                }
+                            }
+                        }
                         if let Some(mut h) = open_handle.take() {
                             use std::io::Write;
                             let _ = h.write_all(b"d");
@@ -431,8 +458,13 @@ pub fn run_c19(ctx: &Ctx) -> i32 {
                         }
                         // bytes untouched by the setters
                         if !is_dir {
+                            let expected: &[u8] = if follow == Follow::AppendWrittenBeforeSetters {
+                                b"abcw"
+                            } else {
+                                b"abc"
+                            };
                             match PathApi::read_all(&p) {
-                                Ok(bytes) if bytes == b"abc" => {}
+                                Ok(bytes) if bytes == expected => {}
                                 other => vio.push(mk(
                                     "setters-changed-bytes".into(),
                                     format!(
@@ -502,7 +534,7 @@ pub fn run_c19(ctx: &Ctx) -> i32 {
                                     }
                                 }
                             }
-                            Follow::AppendHandleOpenAcrossSetters | Follow::ReadBeforeSetters => {}
+                            Follow::AppendHandleOpenAcrossSetters | Follow::ReadBeforeSetters | Follow::AppendWrittenBeforeSetters => {}
                             Follow::Read => {
                                 if PathApi::read_all(&p).is_ok() {
                                     if let (Ok(bm), Ok(am)) = (&before, PathApi::metadata(&p)) {
